@@ -314,12 +314,13 @@ def sys_requests(sc, sessions_index=None, commit_ok=None):
     base_done = False
     order = []
     ncommit = 0       # index into commit_ok (which commit steps really produced a commit)
+    made = 0          # non-base commits made so far: a file that appears later gets that many (empty) commits first
     for st in sc["steps"]:
         op = st["op"]
         if op == "edit":
             p = st["path"]
             ys = [lid(l[0]) for l in st["lines"]]
-            f = files.setdefault(p, {"head": [], "ops": []})
+            f = files.setdefault(p, {"head": [], "ops": [{"k": "commit"} for _ in range(made)]})
             if p not in order:
                 order.append(p)
             if not base_done:
@@ -341,7 +342,7 @@ def sys_requests(sc, sessions_index=None, commit_ok=None):
             pass
         elif op == "stage_content":
             p = st["path"]
-            files.setdefault(p, {"head": [], "ops": []})["ops"].append({"k": "stage", "ys": [lid(l[0]) for l in st["lines"]]})
+            files.setdefault(p, {"head": [], "ops": [{"k": "commit"} for _ in range(made)]})["ops"].append({"k": "stage", "ys": [lid(l[0]) for l in st["lines"]]})
         elif op == "commit":
             ok = commit_ok[ncommit] if commit_ok is not None and ncommit < len(commit_ok) else True
             ncommit += 1
@@ -359,6 +360,7 @@ def sys_requests(sc, sessions_index=None, commit_ok=None):
                 if mode == "all" or (mode == "paths" and p in st["paths"]):
                     f["ops"].append({"k": "stageAll"})
                 f["ops"].append({"k": "commit"})
+            made += 1
     reqs = {p: {"op": "sys_run", "head": f["head"], "ops": f["ops"]} for p, f in files.items()}
     return reqs, sess
 
